@@ -1534,9 +1534,15 @@ impl Node {
     /// but may be useful if switching to a new persister.
     pub fn persist_all(&self) {
         let persister = &self.persister;
-        let state = self.get_state();
-        persister.new_node(&self.get_id(), &self.node_config, &*state).unwrap();
-        for channel in self.get_channels().values() {
+        // Lock order: tracker, channels, channel, node state (see forget_channel).
+        // The node state lock must not be held while waiting for the others.
+        let tracker = self.get_tracker();
+        let channels = self.get_channels();
+        {
+            let state = self.get_state();
+            persister.new_node(&self.get_id(), &self.node_config, &*state).unwrap();
+        }
+        for channel in channels.values() {
             let channel = channel.lock().unwrap();
             match &*channel {
                 ChannelSlot::Stub(_) => {}
@@ -1545,7 +1551,8 @@ impl Node {
                 }
             }
         }
-        persister.update_tracker(&self.get_id(), &self.get_tracker()).unwrap();
+        persister.update_tracker(&self.get_id(), &tracker).unwrap();
+        let state = self.get_state();
         let wlvec = state.allowlist.iter().map(|a| a.to_string(self.network())).collect();
         self.persister.update_node_allowlist(&self.get_id(), wlvec).unwrap();
     }
